@@ -371,6 +371,7 @@ class Contract:
         self.touch: List[str] = []             # parameter names whose class axioms are instantiated at entry
         self.max_paths: int = 4000
         self.field_types: Dict[Any, Any] = {}   # (class name, attribute) -> type, overriding the global schema for this contract
+        self.allocates: bool = False       # the function allocates objects that remain reachable after it returns
         self.axiom_bags: bool = False      # list(set) as a fresh bag array with a defining axiom instead of a lambda term
         self.seq_filter: bool = False      # filter comprehensions over seq lists yield a seq list (membership axioms)
         self.timeout_factor: float = 1.0   # solver budget multiplier for quantifier-heavy contracts
